@@ -369,13 +369,13 @@ int main(int argc, char** argv) {
         else if (run.expect(face >= 0 && face < (int)T.size() && std::isfinite(dist), "ray-hit-valid-face", [&] { return "hit with face=" + std::to_string(face) + " dist=" + sd(dist) + " at " + where(); }, rp)) {
             // whatever is reported must be a real intersection: the named point lies on the ray and on the named face
             Vec3 x = o + dist * d;
-            run.residual("ray-hit-point-on-face", (M.findPoint(face, uv) - x).norm() / L, 1e-9, where, rp);
+            run.residual("ray-hit-point-on-face", (M.findPoint(face, uv) - x).norm() / L, 1e-11, where, rp);
             run.expect(uv[0] >= -1e-9 && uv[1] >= -1e-9 && uv[0] + uv[1] <= 1 + 1e-9 && dist >= 0, "ray-hit-uv-in-triangle", [&] { return "uv=(" + sd(uv[0]) + "," + sd(uv[1]) + ") dist=" + sd(dist) + " at " + where(); }, rp);
         }
         if (unspecified) { run.count("unspecified:ray-through-edge-or-grazing"); return; }
         if (!run.expect(hit == refHit, refHit ? "ray-missed-hit" : "ray-phantom-hit", [&] { return "intersectsRay=" + std::to_string(hit) + " brute force=" + std::to_string(refHit) + " t=" + sd(tStrict) + " face " + std::to_string(fStrict) + " at " + where(); }, rp)) return;
         if (hit) {
-            run.residual("ray-distance-vs-brute-force", std::abs(dist - tStrict) / L, 1e-9, where, rp);
+            run.residual("ray-distance-vs-brute-force", std::abs(dist - tStrict) / L, 1e-11, where, rp);
             Real dist2 = preset; UnitVec3 n; bool hit2 = M.intersectsRay(o, UnitVec3(d), dist2, n);
             run.expect(hit2 && dist2 == dist, "ray-overloads-agree", [&] { return "the two intersectsRay overloads disagree at " + where(); }, rp);
             if (hit2 && !C.smooth && face >= 0 && face < (int)T.size()) run.residual("ray-normal-is-face-normal", (Vec3(n) - T[face].n).norm(), 1e-12, where, rp);
